@@ -302,6 +302,17 @@ func runC06Driver(c *Ctx) {
 				case ph == 'C' && st == "committed", ph == 'R' && (st == "" || st == "rollbacked" || st == "suspended"):
 					skipType = true
 				}
+				if i%3 == 0 && k == 0 {
+					// the application first uses the handle outside any TCC phase (a health check, a job that forgot its
+					// seata context): refused or served, the pooled connection is left in no transaction
+					if ptx, perr := db.BeginTx(context.Background(), nil); perr == nil {
+						ptx.Rollback()
+					}
+					if open := e.OpenTxns(); len(open) > 0 && leak == "" {
+						leak = fmt.Sprintf("after a BeginTx without a seata context: transactions %v still open on the pooled connection", open)
+					}
+					c.Out.Count("fence-driver.plain-context-first")
+				}
 				tx, err := db.BeginTx(ctx, nil)
 				if err == nil {
 					col := map[byte]string{'P': "tries", 'C': "confirms", 'R': "cancels"}[ph]
